@@ -3,6 +3,8 @@ import s_codec
 import s_keepalive
 import s_wire
 import s_init
+import s_framing
+import s_sender
 
 KERNEL = "Lean 4.33.0 kernel; axioms limited to propext, Classical.choice, Quot.sound (audited with #print axioms on every run)"
 HARNESS = "the correspondence harness (generators, canonicalisation) in /verif/harness"
@@ -105,5 +107,17 @@ PROPS = {
         "rule": "every writer with C05-domain strings in every text slot, bytes of all values and lengths 0..300, None, 0..8 elements, ints "
                 "over magnitudes, floats over all binades (random bit patterns), every order of modes, booleans, and a type-confusion "
                 "stream placing {int, bool, float, bytes, str, None, list, dict, tuple, object} in every slot; non-trivial = distinct operation",
+    },
+    "C15": {
+        "lean": ["AriVerif.Props.C15"],
+        "gen": [],
+        "streams": [s_framing.stream],
+        "trusted": [KERNEL, HARNESS, "modelled, not verified: str.splitlines(keepends=True) of CPython on ASCII text (compared on every "
+                    "segmentation incl. malformed streams with lone CR / VT / FF / FS / GS / RS)"],
+        "assumptions": ["inbound bytes are ASCII; recv never returns an empty chunk before EOF",
+                        "well-formed stream = lines whose content has no raw control characters (values are percent-encoded)"],
+        "rule": "streams of 1-6 request lines with mixed CRLF / LF terminators: exhaustively every placement of up to 2 (thorough: 3) cut "
+                "points, byte-at-a-time, with unterminated remainders (incl. a cut between CR and LF), random many-cut segmentations; the "
+                "real _RequestManager._do_run is run in-process on a scripted socket; non-trivial = distinct segmentation",
     },
 }
